@@ -378,20 +378,35 @@ def r4(ctx):
         def visit_Name(self, node):
             if node.id in self.m:
                 return ast.Name(id=self.m[node.id], ctx=node.ctx)
+            if self.idx and node.id in self.idx and isinstance(node.ctx, ast.Load):
+                return _copy.deepcopy(self.idx[node.id])
             return node
     import copy as _copy
     for l in walk_no_nested(f):
         if not isinstance(l, ast.For):
             continue
         m = {}
-        if isinstance(l.iter, ast.Call) and dotted(l.iter.func) == 'enumerate' and l.iter.args and isinstance(l.iter.args[0], ast.Call) \
-                and dotted(l.iter.args[0].func) == 'zip' and isinstance(l.target, ast.Tuple) and len(l.target.elts) == 2 and isinstance(l.target.elts[0], ast.Name) \
-                and isinstance(l.target.elts[1], ast.Tuple) and len(l.target.elts[1].elts) == 2 and all(isinstance(x, ast.Name) for x in l.target.elts[1].elts):
-            zargs = [src(a_) for a_ in l.iter.args[0].args]
-            if len(zargs) != 2 or recs not in zargs or not (set(zargs) & tagged):
+        sub_exprs = {}
+        it = l.iter
+        idxname = None
+        tgt = l.target
+        if isinstance(it, ast.Call) and dotted(it.func) == 'enumerate' and it.args and isinstance(tgt, ast.Tuple) and len(tgt.elts) == 2 and isinstance(tgt.elts[0], ast.Name):
+            idxname = tgt.elts[0].id
+            it, tgt = it.args[0], tgt.elts[1]
+        if isinstance(it, ast.Call) and dotted(it.func) == 'zip' and isinstance(tgt, ast.Tuple) and len(tgt.elts) == len(it.args) and all(isinstance(x, ast.Name) for x in tgt.elts):
+            zargs = [src(a_) for a_ in it.args]
+            if recs not in zargs or not (set(zargs) & tagged):
                 continue
-            pos = zargs.index(recs)
-            m = {l.target.elts[0].id: 'IDX', l.target.elts[1].elts[pos].id: 'REC', l.target.elts[1].elts[1 - pos].id: 'TR'}
+            if idxname:
+                m[idxname] = 'IDX'
+            for nm, za in zip(tgt.elts, it.args):
+                if src(za) == recs:
+                    m[nm.id] = 'REC'
+                elif src(za) in tagged:
+                    m[nm.id] = 'TR'
+                else:
+                    # the k-th element of another per-mate sequence (e.g. the capture slices)
+                    sub_exprs[nm.id] = ast.Subscript(value=za, slice=ast.Name(id='IDX', ctx=ast.Load()), ctx=ast.Load())
         elif isinstance(l.iter, ast.Call) and dotted(l.iter.func) == 'range' and isinstance(l.target, ast.Name) and recs in names_in(l.iter):
             m = {l.target.id: 'IDX'}
         else:
@@ -402,11 +417,11 @@ def r4(ctx):
                 tg, val = a_.targets[0], a_.value
                 pairs = list(zip(tg.elts, val.elts)) if isinstance(tg, ast.Tuple) and isinstance(val, ast.Tuple) and len(tg.elts) == len(val.elts) else [(tg, val)]
                 for t1, v1 in pairs:
-                    cv = Canon(m, None).visit(_copy.deepcopy(v1))
+                    cv = Canon(m, sub_exprs).visit(_copy.deepcopy(v1))
                     if isinstance(t1, ast.Name) and isinstance(cv, ast.Name) and cv.id in ('REC', 'TR'):
                         m[t1.id] = cv.id          # a local alias of the IDX-th record
                         continue
-                    got[src(Canon(m, None).visit(_copy.deepcopy(t1)))] = src(cv)
+                    got[src(Canon(m, sub_exprs).visit(_copy.deepcopy(t1)))] = src(cv)
                     cap.append(a_)
         if 'TR.sequence' in got or 'TR.qualities' in got:
             ok = got.get('TR.sequence') == 'REC.sequence[self.sequenceCapture[IDX]]' and got.get('TR.qualities') == 'REC.qual[self.sequenceCapture[IDX]]'
@@ -604,16 +619,44 @@ def provenance(ctx, rid='C02-R8'):
                         if isinstance(a_, ast.Name):
                             defs.setdefault(a_.id, []).append(v_)
 
+        appends = {}
+        modp = ctx.ix.module(BASEDEMUX)
+        for c_ in walk_no_nested(f):
+            if isinstance(c_, ast.Call) and isinstance(c_.func, ast.Attribute) and c_.func.attr in ('append', 'extend') and isinstance(c_.func.value, ast.Name) and c_.args:
+                # what is appended, plus the iterables of the loops around the append (they define its loop variables)
+                encl = []
+                p_ = modp.parent.get(c_)
+                while p_ is not None and p_ is not f:
+                    if isinstance(p_, ast.For):
+                        encl.append(p_.iter)
+                    p_ = modp.parent.get(p_)
+                appends.setdefault(c_.func.value.id, []).extend([c_.args[0]] + encl)
+
+        def contributions(name, depth=0, seen=None):
+            """every expression that flows into the local: its definitions and what is appended to it (with the iterables of the enclosing loops)"""
+            seen = seen if seen is not None else set()
+            if name in seen or depth > 5:
+                return []
+            seen.add(name)
+            out = list(defs.get(name, [])) + list(appends.get(name, []))
+            for e_ in list(out):
+                for n_ in ast.walk(e_):
+                    if isinstance(n_, ast.Name) and n_.id != name and (n_.id in defs or n_.id in appends):
+                        out.extend(contributions(n_.id, depth + 1, seen))
+            return out
+
         def kind_of(name):
             """(field, role attrs) a local was cut from: field in {'sequence','qual'}"""
-            out = set()
-            for v_ in defs.get(name, []):
-                t_ = src(v_)
-                fld = 'sequence' if ('.sequence[' in t_ or 'apply_slices_seq' in t_) else ('qual' if ('.qual[' in t_ or 'apply_slices_qual' in t_) else None)
-                attrs = {x.attr for x in ast.walk(v_) if isinstance(x, ast.Attribute) and isinstance(x.value, ast.Name) and x.value.id == 'self'}
-                role = 'barcode' if attrs and all(a_.lower().startswith('barcode') for a_ in attrs) else ('umi' if attrs and all(a_.lower().startswith('umi') for a_ in attrs) else None)
-                out.add((fld, role))
-            return out
+            exprs = contributions(name)
+            if not exprs:
+                return set()
+            t_ = ' ; '.join(src(v_) for v_ in exprs)
+            is_seq = '.sequence[' in t_ or 'apply_slices_seq' in t_
+            is_qual = '.qual[' in t_ or 'apply_slices_qual' in t_
+            fld = 'sequence' if is_seq and not is_qual else ('qual' if is_qual and not is_seq else ('mixed' if is_seq and is_qual else None))
+            attrs = {x.attr for v_ in exprs for x in ast.walk(v_) if isinstance(x, ast.Attribute) and isinstance(x.value, ast.Name) and x.value.id == 'self'}
+            role = 'barcode' if attrs and all(a_.lower().startswith('barcode') for a_ in attrs) else ('umi' if attrs and all(a_.lower().startswith('umi') for a_ in attrs) else None)
+            return {(fld, role)}
         res = [s_ for s_ in walk_no_nested(f) if isinstance(s_, ast.Assign) and isinstance(s_.targets[0], ast.Tuple) and 'getIndexCorrectedBarcodeAndHammingDistance' in src(s_.value)]
         up = [c for c in walk_no_nested(f) if isinstance(c, ast.Call) and isinstance(c.func, ast.Attribute) and c.func.attr == 'update' and c.args and isinstance(c.args[0], ast.Dict)]
         ok = False
